@@ -1,14 +1,11 @@
 package t0152
 
 type G1 struct {
-	F0x0 int32
-}
-
-type G2 struct {
-	F1x0 int64
+	F0x0 *int32
 }
 
 type T struct {
 	F0 *G1
-	F1 *G2
+	F1 int64
+	F2 float32
 }
